@@ -163,6 +163,9 @@ def run(tier, seed, mutant=None, only_validate=False):
                 also = ["C05"] if prop == "C04" else []
                 if r["cfg"]["kind"] == "delay" and prop == "C02":
                     also.append("C13")          # delay preserves order and count (C13) as well
+                for x in amod.symptoms(r):
+                    if x != prop and x not in also:
+                        also.append(x)
                 if prop not in ("C05", "C04") and amod.leaked(r):
                     also.append("C05")
                     why += "; at the end the counters of elements %s are not zero although nothing holds them" % amod.leaked(r)
